@@ -68,6 +68,8 @@ def work(cfg):
             out["coq_skip"] = "particle-swarm stress run (oracle and aliasing check only)"
         elif cfg.get("cons") == "strict":
             out["coq_skip"] = "strict/callable constraints (oracle only)"
+        elif cfg.get("kind") == "scaled":
+            out["coq_skip"] = "user-defined variable type ScaledReal (oracle only: the executable Coq carrier has the five shipped types)"
         elif not T.cv_exact(r):
             out["coq_skip"] = "inexact float sum in constraint_violation"
         else:
@@ -306,7 +308,7 @@ def run(ctx):
         "finding_candidates_count": len(candidates),
         "grid_points_total": len(T.all_configs()),
     })
-    ctx.rule = ("runs: the grid algorithm(15) x variable type(7 incl. mixed Binary+Integer and very narrow Real ranges; Real only for GDE3/OMOPSO/SMPSO/CMAES) x {unconstrained, "
+    ctx.rule = ("runs: the grid algorithm(15) x variable type(10 incl. mixed Binary+Integer, very narrow and very wide Real ranges, power-of-two Integer ranges, a user-defined ScaledReal type; Real only for GDE3/OMOPSO/SMPSO/CMAES) x {unconstrained, "
                 "constrained} x {min, max/mixed} x {default, explicit operator} (quick: half of the grid rotated by the seed; thorough: all x4), "
                 "evaluator/seed/size/scripted-extreme-probability/inject/subclass drawn from ctx.rng, plus restart, injected-population, strict-"
                 "constraint and heavy-extreme-draw specials, plus OMOPSO/SMPSO stress runs (swarm 12-30, leader archive 2-5, six variables with a "
